@@ -131,30 +131,50 @@ pub fn show_state(l: &PriceLevel) -> String {
 }
 
 impl Exec {
-    /// hands a (damaged) package text to `from_snapshot_json` and emits outcome + judge lines
+    /// hands a (damaged) package text to the restore entry points and emits outcome + judge lines. The three roads a
+    /// caller can take from a package text to a level - `PriceLevel::from_snapshot_json`; `PriceLevelSnapshotPackage::
+    /// from_json` + `into_snapshot` + `PriceLevel::from(&snapshot)`; `from_json` + `PriceLevel::from_snapshot_package` -
+    /// must all decide alike; each outcome that differs from the first is compared with the model and judged as well.
     fn restore_bytes(&mut self, f: &[u8]) {
-        let outcome = match std::str::from_utf8(f) {
-            Err(_) => "restored err".to_string(),
-            Ok(t) => match catch_unwind(AssertUnwindSafe(|| PriceLevel::from_snapshot_json(t))) {
-                Ok(Ok(l)) => format!("restored ok {}", show_state_content(&l)),
-                Ok(Err(_)) => "restored err".to_string(),
-                Err(_) => "PANIC".to_string(),
-            },
+        let show = |r: Result<Result<PriceLevel, pricelevel::PriceLevelError>, Box<dyn std::any::Any + Send>>| match r {
+            Ok(Ok(l)) => format!("restored ok {}", show_state_content(&l)),
+            Ok(Err(_)) => "restored err".to_string(),
+            Err(_) => "PANIC".to_string(),
         };
-        // the model is asked only when the damaged text is still a JSON document
-        let mut asked = false;
-        if let Ok(t) = std::str::from_utf8(f) {
-            if serde_json::from_str::<serde_json::Value>(t).is_ok() {
-                self.emit(format!("pkg.restore {}", crate::codec::hex(t)), outcome.clone());
-                asked = true;
+        let outcomes: Vec<String> = match std::str::from_utf8(f) {
+            Err(_) => vec!["restored err".to_string()],
+            Ok(t) => {
+                let mut v = vec![show(catch_unwind(AssertUnwindSafe(|| PriceLevel::from_snapshot_json(t))))];
+                let o2 = show(catch_unwind(AssertUnwindSafe(|| {
+                    pricelevel::PriceLevelSnapshotPackage::from_json(t).and_then(|p| p.into_snapshot()).map(|s| PriceLevel::from(&s))
+                })));
+                let o3 = show(catch_unwind(AssertUnwindSafe(|| {
+                    pricelevel::PriceLevelSnapshotPackage::from_json(t).and_then(PriceLevel::from_snapshot_package)
+                })));
+                for o in [o2, o3] {
+                    if !v.contains(&o) {
+                        v.push(o);
+                    }
+                }
+                v
             }
+        };
+        for outcome in outcomes {
+            // the model is asked only when the damaged text is still a JSON document
+            let mut asked = false;
+            if let Ok(t) = std::str::from_utf8(f) {
+                if serde_json::from_str::<serde_json::Value>(t).is_ok() {
+                    self.emit(format!("pkg.restore {}", crate::codec::hex(t)), outcome.clone());
+                    asked = true;
+                }
+            }
+            if !asked {
+                self.emit(format!("pkg.raw h{}", crate::codec::hex_bytes(f)), "raw");
+            }
+            let fhex = match std::str::from_utf8(f) { Ok(t) => crate::codec::hex(t), Err(_) => "-".to_string() };
+            self.emit(format!("judge.C09 {} {} {}", self.pkg_content, fhex, outcome), "J C09 ok");
+            self.emit(format!("judge.C18 {}", outcome), "J C18 ok");
         }
-        if !asked {
-            self.emit(format!("pkg.raw h{}", crate::codec::hex_bytes(f)), "raw");
-        }
-        let fhex = match std::str::from_utf8(f) { Ok(t) => crate::codec::hex(t), Err(_) => "-".to_string() };
-        self.emit(format!("judge.C09 {} {} {}", self.pkg_content, fhex, outcome), "J C09 ok");
-        self.emit(format!("judge.C18 {}", outcome), "J C18 ok");
     }
     pub fn new() -> Self {
         Exec {
@@ -318,7 +338,20 @@ impl Exec {
                         let txs = format!("[{}]", txs.join(","));
                         let complete = if r.is_complete { 1 } else { 0 };
                         let filled = show_list(&r.filled_order_ids, show_id);
-                        self.emit(line, format!("match txs={} rem={} complete={} filled={}", txs, r.remaining_quantity, complete, filled));
+                        // the accessors a caller reads the result through
+                        let exq = catch_unwind(AssertUnwindSafe(|| r.executed_quantity())).map(|v| v.to_string()).unwrap_or("PANIC".into());
+                        let exv = catch_unwind(AssertUnwindSafe(|| r.executed_value())).map(|v| v.to_string()).unwrap_or("PANIC".into());
+                        let acc_ok = catch_unwind(AssertUnwindSafe(|| {
+                            let per_tx = r.transactions.as_vec().iter().all(|t| {
+                                t.maker_side() == (match t.taker_side { Side::Buy => Side::Sell, Side::Sell => Side::Buy })
+                                    && t.total_value() == t.price.wrapping_mul(t.quantity)
+                            });
+                            let (q_, v_) = (r.executed_quantity(), r.executed_value());
+                            let avg = r.average_price();
+                            per_tx && avg.is_some() == (q_ > 0) && avg.map(|a| a == v_ as f64 / q_ as f64).unwrap_or(true)
+                        })).unwrap_or(false);
+                        self.emit(line, format!("match txs={} rem={} complete={} filled={} exq={} exv={} acc={}", txs, r.remaining_quantity, complete, filled,
+                            exq, exv, if acc_ok { "ok" } else { "bad" }));
                         self.emit(
                             format!(
                                 "judge.C02 {} {} {} {} {} {} {} {} {} {}",
